@@ -166,8 +166,12 @@ def write_evidence(prop, tier, seed, rec, wall, extra, n_viol, controls=None):
     return ev
 
 
-def write_replay(prop, new):
+def write_replay(prop, new, scratch=False):
     d = os.path.join(VERIF, 'evidence', 'replay')
+    if scratch:
+        # development runs against scratch trees (--no-evidence) do not
+        # touch the committed replay files
+        d = os.path.join(d, '.scratch')
     os.makedirs(d, exist_ok=True)
     p = os.path.join(d, '%s.json' % prop)
     with open(p, 'w') as fh:
